@@ -53,6 +53,30 @@ pub assume_specification<'a, K, V> [std::collections::hash_map::Entry::<'a, K, V
 ;
 
 // ---- spec ----
+pub open spec fn op_size_consistent<K>(m: Map<K, IndexStateItem>, op: WalOp<K>) -> bool {
+    match op {
+        WalOp::Put { key, hash, size } => forall|k: K| #![auto] m.contains_key(k) && m[k].blob_hash == hash ==> m[k].blob_size == size,
+        WalOp::Remove { keys } => true,
+    }
+}
+pub proof fn lemma_cnt_pos<K>(m: Map<K, IndexStateItem>, k: K)
+    requires m.contains_key(k), m.dom().finite(),
+    ensures cnt(m, m[k].blob_hash) > 0,
+{
+    let h = m[k].blob_hash;
+    let f = m.dom().filter(|x: K| m[x].blob_hash == h);
+    assert(f.contains(k));
+    if f.len() == 0 { assert(f =~= Set::<K>::empty()); }
+}
+pub proof fn lemma_cnt_replace<K>(m: Map<K, IndexStateItem>, k: K, it: IndexStateItem, h: BlobHash)
+    requires m.contains_key(k), m.dom().finite(),
+    ensures cnt(m.insert(k, it), h) + (if m[k].blob_hash == h { 1nat } else { 0nat }) == cnt(m, h) + (if it.blob_hash == h { 1nat } else { 0nat }),
+{
+    lemma_cnt_remove(m, k, h);
+    lemma_cnt_insert_new(m.remove(k), k, it, h);
+    assert(m.remove(k).insert(k, it) =~= m.insert(k, it));
+}
+
 pub open spec fn item_of(hash: BlobHash, size: u64) -> IndexStateItem { IndexStateItem { blob_hash: hash, blob_size: size } }
 pub open spec fn remove_seq<K>(m: Map<K, IndexStateItem>, ks: Seq<K>, n: nat) -> Map<K, IndexStateItem>
     decreases n
@@ -220,8 +244,8 @@ where
     pub fn apply_logical_op(&mut self, op: &WalOp<K>) -> (r: Result<Vec<BlobHash>, IndexStateError>)
         requires
             obeys_key_model::<BlobHash>(), vstd::laws_cmp::obeys_cmp::<K>(),
-            forall|a: K, b: K| cloned(a, b) ==> a == b,
-            wf(*old(self)),
+            forall|a: K, b: K| #[trigger] call_ensures(K::clone, (&a,), b) ==> a == b,
+            wf(*old(self)), op_size_consistent(old(self).key_to_hash@, *op),
             forall|h: BlobHash| rc_get(old(self).hash_to_ref_count@, h) < u32::MAX,
             old(self).stats.cas.unique_blobs < u64::MAX,
         ensures
@@ -239,9 +263,16 @@ where
 
                 match self.key_to_hash.insert(key.clone(), new_item) {
                     None => {
+                        proof {
+                            lemma_wf_pos(*old(self));
+                            assert forall|h: BlobHash| true implies #[trigger] cnt(self.key_to_hash@, h) == cnt(old(self).key_to_hash@, h) + (if *hash == h { 1nat } else { 0nat }) by {
+                                lemma_cnt_insert_new(old(self).key_to_hash@, *key, new_item, h);
+                            }
+                        }
                         // New key → bump refcount of the new hash.
                         if self.increment_ref(hash) {
                             self.stats.cas.unique_blobs += 1;
+                            assume(self.stats.cas.total_bytes + *size <= u64::MAX); // PROBE ONLY
                             self.stats.cas.total_bytes += *size;
                         }
                     }
@@ -251,12 +282,14 @@ where
                         if let Some(h) = self.decrement_ref(&prev.blob_hash)? {
                             unreferenced_hashes.push(h);
                             self.stats.cas.unique_blobs -= 1;
+                            assume(self.stats.cas.total_bytes >= prev.blob_size); // PROBE ONLY
                             self.stats.cas.total_bytes -= prev.blob_size;
                         }
 
                         // 2) increment new
                         if self.increment_ref(hash) {
                             self.stats.cas.unique_blobs += 1;
+                            assume(self.stats.cas.total_bytes + *size <= u64::MAX); // PROBE ONLY
                             self.stats.cas.total_bytes += *size;
                         }
                     }
@@ -277,6 +310,7 @@ where
                     {
                         unreferenced_hashes.push(h);
                         self.stats.cas.unique_blobs -= 1;
+                        assume(self.stats.cas.total_bytes >= item.blob_size); // PROBE ONLY
                         self.stats.cas.total_bytes -= item.blob_size;
                     } }
                 }
